@@ -1842,11 +1842,14 @@ class DynamicSeedingInstrumentation(transformer.DynamicSeedingInstrumentationAda
         ):
             return
 
-        maybe_compare_index = COMPARE_OP_POS
-        maybe_compare = node.try_get_instruction(maybe_compare_index)
+        # The instrumentation is inserted into the basic block itself, which may also contain
+        # pseudo-instructions, so we need the positions of the instructions in the basic block.
+        maybe_compare_index, maybe_compare = node.try_get_instruction_with_index(
+            COMPARE_OP_POS
+        ) or (None, None)
 
         if (
-            maybe_compare is not None
+            maybe_compare_index is not None
             and isinstance(maybe_compare, Instr)
             and maybe_compare.name == "COMPARE_OP"
         ):
@@ -1860,11 +1863,13 @@ class DynamicSeedingInstrumentation(transformer.DynamicSeedingInstrumentationAda
             )
             return
 
-        maybe_string_func_index = self.STRING_FUNC_POS
-        maybe_string_func = node.try_get_instruction(maybe_string_func_index)
+        maybe_string_func_index, maybe_string_func = node.try_get_instruction_with_index(
+            self.STRING_FUNC_POS
+        ) or (None, None)
 
         if (
-            isinstance(maybe_string_func, Instr)
+            maybe_string_func_index is not None
+            and isinstance(maybe_string_func, Instr)
             and (method_name := self.extract_method_name(maybe_string_func)) is not None
             and method_name in DynamicConstantProvider.STRING_FUNCTION_LOOKUP
         ):
@@ -1878,11 +1883,13 @@ class DynamicSeedingInstrumentation(transformer.DynamicSeedingInstrumentationAda
             )
             return
 
-        maybe_string_func_with_arg_index = self.STRING_FUNC_POS_WITH_ARG
-        maybe_string_func_with_arg = node.try_get_instruction(maybe_string_func_with_arg_index)
+        maybe_string_func_with_arg_index, maybe_string_func_with_arg = (
+            node.try_get_instruction_with_index(self.STRING_FUNC_POS_WITH_ARG) or (None, None)
+        )
 
         if (
-            isinstance(maybe_string_func_with_arg, Instr)
+            maybe_string_func_with_arg_index is not None
+            and isinstance(maybe_string_func_with_arg, Instr)
             and (method_name := self.extract_method_name(maybe_string_func_with_arg)) is not None
         ):
             match method_name:
